@@ -24,7 +24,11 @@ PROFILE = _gen.profile(sends=(0, 2), client_msgs=(0, 6), p_raw_bodies=0.6,
 
 
 def gen(rng, tier, i):
-    return _gen.gen_server_plan(rng, PROFILE)
+    lim = rng.choice([16, 16, 16, 2, 3, 17])
+    prof = dict(PROFILE, packet_limit=lim)
+    plan = _gen.gen_server_plan(rng, prof)
+    plan['app_opts']['max_decode_packets'] = lim
+    return plan
 
 
 def run(plan, sched_values=None, sched_seed=0):
